@@ -10,3 +10,4 @@ package rtimer
 //@ func After
 //@   trusted
 //@   allocates
+//@   ensures result != nil
